@@ -138,6 +138,8 @@ class Piece:
         self.edits = []
         self.rewrites_log = []
         text = self.orig_text
+        if mode != "stub":
+            text = self._strip_comments(text)
         # T-MACRO: expand the repository's own single-arm macro_rules! at their call sites (pre-pass)
         if mode != "stub":
             text = self._expand_macros(text)
@@ -151,6 +153,28 @@ class Piece:
         if len(self.sf.items) != 1:
             raise Undecided(f"{spec}: expected one item after extraction, got {len(self.sf.items)}")
         self.item = self.sf.items[0]
+
+    def _strip_comments(self, text):
+        """T-COMMENT (pre-pass): comments are not code; they are removed (line structure kept) so that a comment added in the middle of
+        an expression cannot hide that expression from a rewrite rule or an anchor."""
+        toks = lex(text)
+        out, pos, n = [], 0, 0
+        for t in toks + [None]:
+            end = t.start if t is not None else len(text)
+            gap = text[pos:end]
+            if "//" in gap or "/*" in gap:
+                g2 = re.sub(r"/\*.*?\*/", lambda m: "\n" * m.group(0).count("\n"), gap, flags=re.S)
+                g2 = re.sub(r"//[^\n]*", "", g2)
+                if g2 != gap:
+                    n += 1
+                gap = g2
+            out.append(gap)
+            if t is not None:
+                out.append(text[t.start:t.end])
+                pos = t.end
+        if n:
+            self.rewrites_log.append({"rule": "T-COMMENT", "file": self.relpath, "item": self.spec, "from": f"{n} comment(s)", "to": ""})
+        return "".join(out)
 
     def _inline_new_helpers(self, text, real, impl_item):
         """T-INLINE: a call of a function that did not exist when the contracts were written (not in the baseline list
